@@ -26,6 +26,8 @@ FORBIDDEN = re.compile(r"\b(sorry|admit|native_decide|bv_decide|implemented_by|u
 os.environ.setdefault("GAFTOOLS_VERIF", "1")
 os.environ.setdefault("PYTHONDONTWRITEBYTECODE", "1")
 sys.dont_write_bytecode = True
+import logging
+logging.disable(logging.CRITICAL)
 
 
 class HarnessError(Exception):
